@@ -99,7 +99,72 @@ def inlined(fx, path, pred, depth=3, _stack=()):
                     blocks[bi]['term'] = {'k': 'goto', 'target': boff, 'span': t['span']}
                     n_inl += 1
         bi += 1
+    if n_inl:
+        forward_refs(mir)
     b = Body(fx, path, mir, f)
     b.inlined_calls = n_inl
     cache[key] = b
     return b
+
+
+def forward_refs(mir):
+    """After inlining, a helper's `&mut x` parameter is a single-assignment local holding `&mut caller_local`.
+    Rewrite every `(*param).rest` into `caller_local.rest` so that def-use analyses see the caller's variable
+    being read and written directly (what the code was before the helper was extracted).  Only references to
+    places made of a local and field projections are forwarded (such a place denotes the same memory everywhere)."""
+    nloc = len(mir['locals'])
+    defs = [[] for _ in range(nloc)]
+    for b in mir['blocks']:
+        for st in b['stmts']:
+            if st['k'] == 'assign' and not st['place']['p']:
+                defs[st['place']['l']].append(st['rv'])
+        t = b['term']
+        if t['k'] == 'call' and not t['dest']['p']:
+            defs[t['dest']['l']].append(None)
+    argc = mir['arg_count']
+
+    def target(l, depth=0):
+        if depth > 8 or l <= argc or len(defs[l]) != 1 or defs[l][0] is None:
+            return None
+        rv = defs[l][0]
+        if rv['k'] == 'ref':
+            pl = rv['place']
+            if all(e[0] == 'f' for e in pl['p']):
+                return pl
+            if pl['p'] and pl['p'][0][0] == 'deref' and all(e[0] == 'f' for e in pl['p'][1:]):
+                base = target(pl['l'], depth + 1)
+                if base is not None:
+                    return {'l': base['l'], 'p': list(base['p']) + list(pl['p'][1:])}
+            return None
+        if rv['k'] == 'use' and rv['op'][0] in ('m', 'c') and not rv['op'][1]['p']:
+            return target(rv['op'][1]['l'], depth + 1)
+        return None
+    fwd = {}
+    for l in range(argc + 1, nloc):
+        tg = target(l)
+        if tg is not None:
+            fwd[l] = tg
+
+    def walk(node):
+        if isinstance(node, dict):
+            if 'l' in node and 'p' in node and len(node) == 2:
+                if node['l'] in fwd and node['p'] and node['p'][0][0] == 'deref':
+                    tg = fwd[node['l']]
+                    node['p'] = [list(e) for e in tg['p']] + node['p'][1:]
+                    node['l'] = tg['l']
+                for e in node['p']:
+                    pass
+                return
+            for v in node.values():
+                walk(v)
+        elif isinstance(node, list):
+            for v in node:
+                walk(v)
+    for b in mir['blocks']:
+        for st in b['stmts']:
+            # do not rewrite the defining statements of the forwarded references themselves
+            walk(st.get('place'))
+            rv = st.get('rv')
+            if rv is not None and not (st['k'] == 'assign' and not st['place']['p'] and st['place']['l'] in fwd and rv['k'] == 'ref'):
+                walk(rv)
+        walk(b['term'])
